@@ -86,6 +86,18 @@ impl Monitor for C04 {
                         if h.n_isolated_liabs > 0 {
                             self.cov.probe("isolated_debt_accepted");
                         }
+                        if h.n_liabs > 0 {
+                            for pe in h.positions.iter().filter(|p| !p.is_liab) {
+                                if let Some(bank) = model::bank_of(post_store, &pe.bank) {
+                                    if bank.config.operational_state == BankOperationalState::ReduceOnly {
+                                        self.cov.probe("reduce_only_collateral_present");
+                                    }
+                                    if bank.config.total_asset_value_init_limit != 0 && bank.config.total_asset_value_init_limit != u64::MAX {
+                                        self.cov.probe("cap_discount_active");
+                                    }
+                                }
+                            }
+                        }
                         if net < -h.err.clone() {
                             out.push(viol(
                                 "C04",
